@@ -323,6 +323,10 @@ class ApplyLayoutCastArithConstant(RewritePattern):
         # check if it is used in a terminator operation
         if any(use.operation.has_trait(IsTerminator) for use in const_source.result.uses):
             return
+        # the constant is replaced for all of its users: it may only be used by cast ops
+        # (a subview of it keeps describing the original layout)
+        if not all(isinstance(use.operation, LayoutCast | MemorySpaceCastOp) for use in const_source.result.uses):
+            return
         # apply transformation
         assert isinstance(const_source.value, DenseIntOrFPElementsAttr)
         new_constant = transform_constant(const_source.value, op.dest.type.layout)
